@@ -2,7 +2,7 @@ From Coq Require Import List NArith ZArith Bool.
 Import ListNotations.
 Require Import MV.C11.Model MV.C11.Spec MV.C11.Exec MV.C11.ProofsFraming MV.C11.ProofsInv
         MV.C11.ProofsState MV.C11.ProofsCount MV.C11.ProofsOrder MV.C11.ProofsWire MV.C11.ProofsReflect
-        MV.C11.ProofsStream MV.C11.ProofsMain.
+        MV.C11.ProofsStream MV.C11.ProofsBook MV.C11.ProofsMain MV.C11.ProofsSpecOk.
 From Coq Require Import Permutation.
 Open Scope N_scope.
 Require Import MV.C11.Properties.
@@ -72,8 +72,9 @@ Check (C11_metric_roundtrip : forall i secs nanos, op_ok (mi_op i) ->
   decode_event (metric_body i secs nanos) =
   Some (DMetric (mkDMetric (mi_name i) (btree_of (mi_labels i)) (fst (op_num (mi_op i))) (snd (op_num (mi_op i)))))).
 Print Assumptions C11_metric_roundtrip.
-Check (C11_stream_log_ok_reflect : forall x ML KL ML1 KL1 s,
-  s = concat (map enc (map mbody ML1 ++ map kbody KL1)) ->
+Check (C11_stream_log_ok_reflect : forall x ML KL ML1 KL1 s p,
+  s = concat (map enc (map mbody ML1 ++ map kbody KL1)) ++ p ->
+  tail_ok p -> (x_stay x = true -> p = []) ->
   Forall item_ok KL1 ->
   Subseq ML1 ML -> Subseq KL1 KL ->
   Permutation (map dm ML) (x_log_metas x) ->
@@ -88,9 +89,12 @@ Print Assumptions C11_spec_ok_sound.
 Check (C11_stream_ok_whole_frames : forall x s, stream_ok x s = true -> x_stay x = true ->
   exists bodies es, split_frames s = (bodies, []) /\ decode_all bodies = Some es).
 Print Assumptions C11_stream_ok_whole_frames.
-Check (C11_spec_ok_on_model_partial : forall c,
-  o_served (run_case c) = true /\ obs_ok (o_obs (run_case c)) = true).
-Print Assumptions C11_spec_ok_on_model_partial.
+Check (C11_spec_ok_on_model : forall c, case_wf c -> harness_ok c = true -> spec_ok c (run_case c) = true).
+Print Assumptions C11_spec_ok_on_model.
+Check (C11_recorded_events_ok : forall c, Forall cevent_ok (c_cevents c) -> Forall ev_ok (c_events c)).
+Print Assumptions C11_recorded_events_ok.
+Check (C11_spec_ok_on_model_example : case_wf ex_case /\ harness_ok ex_case = true /\ spec_ok ex_case (run_case ex_case) = true).
+Print Assumptions C11_spec_ok_on_model_example.
 Check (C11_example_run : Forall ev_wf ex_events /\
   exists sf obs c, run fixed (Some 2) st0 ex_events = Some (sf, obs) /\
     lookup 2 (clients sf) = Some c /\ overflowed c = false /\ obs_ok obs = true /\
